@@ -208,4 +208,19 @@ def kwUseOK (u : KwUse) : Bool :=
 
 def checkKw (us : List KwUse) : Bool := us.all kwUseOK
 
+/-- every obsolete keyword is the legacy spelling of its replacement (or a reviewed exception;
+an ignored keyword is listed with an empty replacement) -/
+def kwLegacyOK (names : List (NameId × List Char)) (exceptions : List (List Char × List Char))
+    (u : KwUse) : Bool :=
+  u.map.all fun p =>
+    let o := nameOf names p.1
+    match p.2 with
+    | none => exceptions.contains (o, [])
+    | some n =>
+      let nn := nameOf names n
+      (o != nn && normName o == normName nn) || exceptions.contains (o, nn)
+
+def checkKwLegacy (names : List (NameId × List Char)) (exceptions : List (List Char × List Char))
+    (us : List KwUse) : Bool := us.all (kwLegacyOK names exceptions)
+
 end Disp
